@@ -242,11 +242,14 @@ fn int_estimators<T: Elem + num::Zero>(c: &Case) -> Result<(), Fail> {
 
 /// method estimators need a sketcher holding a real sketch: two overlapping item sets derived from the case
 fn method_estimators(c: &Case) -> Result<(), Fail> {
-    let m = c.base.len();
-    let items_a: Vec<u64> = (0..(m as u64 + 3)).map(|i| splitmix64(c.base[0] ^ i)).collect();
+    // one case in 256 uses sketches longer than 2^16 positions (the method estimators count positions)
+    let m = if c.base[0] % 1024 == 7 { 65_536 + (c.base[0] >> 8) as usize % 5_000 } else { c.base.len() };
+    let items_a: Vec<u64> = (0..(m.min(300) as u64 + 3)).map(|i| splitmix64(c.base[0] ^ i)).collect();
     let cut = idx16(c.flips.first().cloned().unwrap_or(0), items_a.len());
     let items_b: Vec<u64> = items_a[cut..].iter().cloned().chain((0..cut as u64).map(|i| splitmix64(!c.base[0] ^ i))).collect();
-    let other_m = c.other_len.unwrap_or(m).max(1);
+    let other_m = if m > 65_000 { m } else { c.other_len.unwrap_or(m).max(1) };
+    // for the long sketches use identical sets half of the time, so that more than 2^16 positions are equal
+    let items_b: Vec<u64> = if m > 65_000 && c.base[0] & 0x100 == 0 { items_a.clone() } else { items_b };
     match c.ty {
         Ty::F32 | Ty::F64 | Ty::Str => {
             let mut sa = SuperMinHash::<f64, u64, FnvHasher>::new(m, Default::default());
@@ -328,6 +331,14 @@ fn size_strategy(max: usize) -> impl Strategy<Value = usize> {
 fn mle_strategy(max_m: usize, max_n: usize) -> impl Strategy<Value = MleCase> {
     (any::<bool>(), prop_oneof![1 => 1usize..8, 3 => crate::gen::m_strategy(1, max_m)], prop::sample::select(vec![1.001f64, 1.01, 1.2, 2.0]), size_strategy(max_n), size_strategy(max_n), size_strategy(max_n), any::<u64>()).prop_map(
         move |(wide, m, b, only_a, only_b, both, seed)| {
+            // one case in 64: cardinalities differing by more than 1e7 (1..3 items against 2e7..4e7), small m to keep it cheap
+            let (m, only_a, only_b, both) = if seed % 160 == 0 && max_n >= 100_000 {
+                let big = 15_000_000 + (seed >> 8) as usize % 10_000_000;
+                let small = 1 + (seed >> 40) as usize % 3;
+                if seed & 0x80 == 0 { (1 + m % 8, small, big, 0) } else { (1 + m % 8, 0, big, small) }
+            } else {
+                (m, only_a, only_b, both)
+            };
             // at least one item per side
             let both = if only_a + both == 0 || only_b + both == 0 { both.max(1) } else { both };
             let n = (only_a + only_b + both) as f64;
@@ -395,6 +406,7 @@ fn mle_judge(c: &MleCase, out: &Value) -> Eval {
         .class_if(c.both == 0, "disjoint")
         .class_if(c.only_a + c.only_b == 0, "identical")
         .class_if(ratio >= 20.0, "cardinalities-ratio>=20")
+        .class_if(ratio >= 1.0e7, "cardinalities-ratio>=1e7")
         .class_if(c.m <= 4, "m<=4")
         .class(format!("b={}", c.ss.b.0)))
 }
